@@ -88,12 +88,12 @@ def load_known_findings(prop: str) -> List[dict]:
 
 def match_finding(v: Violation, findings: List[dict]) -> Optional[dict]:
     for f in findings:
-        m = f.get("match", {})
-        if m.get("cls") != v.cls:
-            continue
-        want = m.get("key", {})
-        if all(v.key.get(k) == val for k, val in want.items()):
-            return f
+        for m in ([f["match"]] if "match" in f else []) + list(f.get("match_any", [])):
+            if m.get("cls") != v.cls:
+                continue
+            want = m.get("key", {})
+            if all(v.key.get(k) == val for k, val in want.items()):
+                return f
     return None
 
 
@@ -435,6 +435,7 @@ def run_check(mod, tier: str, base_seed: int, budget_s: Optional[float], workers
         "determinism_selftest": st,
         "known_findings_matched": {k: {"count": v["count"], "example": v["example"][:300]} for k, v in known_hit.items()},
         "violations_reported": reported,
+        "violation_classes_seen": {ck: len(lst) for ck, lst in sorted(by_cls.items())},
         "workers": workers,
         "harness_errors": [h["tb"][-600:] for h in agg["harness"][:5]],
     }
@@ -455,6 +456,8 @@ def run_check(mod, tier: str, base_seed: int, budget_s: Optional[float], workers
     for fid, kh in sorted(known_hit.items()):
         print("KNOWN-FINDING: property=%s %s — %s (seen %d times this run)" % (
             prop, fid, kh["finding"].get("description", ""), kh["count"]))
+    if len(by_cls) > len(reported):
+        print("NOTE %d violation classes seen, %d minimised and reported; all classes are listed in the evidence file" % (len(by_cls), len(reported)))
     for r in reported:
         print("VIOLATION property=%s replay=%s" % (prop, r["replay"]))
         print("  class=%s count=%d detail=%s" % (r["cls"], r["count"], r["detail"][:500]))
